@@ -93,7 +93,16 @@ class SetupCfgWriter(DependencyWriter):
             dep_sep = ","
 
         try:
-            last_dep_idx = clean_lines.index(last_dep_line)
+            # the requirement is looked for below the `install_requires` key: its text may occur in an earlier list too
+            key_idx = next(
+                (
+                    idx
+                    for idx, line in enumerate(clean_lines)
+                    if line.startswith("install_requires")
+                ),
+                0,
+            )
+            last_dep_idx = clean_lines.index(last_dep_line, key_idx)
         except ValueError:
             # we were unable to find the last req line due to some formatting issue
             logger.debug("Unable to add dependencies to setup.cfg file.")
